@@ -346,6 +346,29 @@ def _build_and_run(tier, seed, profiles):
                 surfaces[d["name"]] = dumpparse.surface(dump_texts[d["name"]])
             except Exception as e:  # noqa
                 surfaces[d["name"]] = []
+    # builder type-state chain of the real expansion: (method, mask of the impl block, mask of the returned type)
+    chains = {}
+    for name, text in dump_texts.items():
+        if table[name]["kind"] != "bitfield":
+            continue
+        try:
+            ch = []
+            for it in dumpparse.parse_dump(text):
+                h = it.impl_header or []
+                if len(h) >= 4 and h[0] == "Partial" + name and h[1] == "<":
+                    prev = int(h[2], 0)
+                    nxt = None
+                    sig = it.sig
+                    if "-" in sig:
+                        k = len(sig) - 1 - sig[::-1].index("-")
+                        tail = sig[k:]
+                        if "<" in tail:
+                            nxt = int(tail[tail.index("<") + 1], 0)
+                    ch.append([it.name, prev, nxt])
+            if ch:
+                chains[name] = ch
+        except Exception as e:  # noqa
+            chains[name] = [["<parse failed: %s>" % e, 0, 0]]
     # token scan of the expansions: `unsafe`, and paths rooted outside core / arbitrary_int / the declaration itself
     token_scan = {}
     for name, text in dump_texts.items():
@@ -501,6 +524,7 @@ def _build_and_run(tier, seed, profiles):
         "unattributed": unattr,
         "surfaces": {k: [list(x) for x in v] for k, v in surfaces.items()},
         "token_scan": token_scan,
+        "chains": chains,
         "probes": probes_res,
         "const_ok": const_ok,
         "nostd": nostd_res,
